@@ -94,7 +94,7 @@ class VectorContainer:
 
         # One match: Unpack and return
         if len(positions) == 1:
-            return positions[0]
+            return int(positions[0])
 
         raise NotImplementedError('Multiple matches not supported')
 
